@@ -25,6 +25,28 @@ CHECKS = {
             "characterisation and the incidence matrices are covered by correspondence and search (partial)."),
 }
 
+CHECKS["C04"] = (
+    "Lean 4 proof over an executable model of Dofs.__init__ + exact correspondence",
+    "Theorems for arbitrary DOF counts, dimension and connectivity tables: closed form and injectivity of the "
+    "table entries, consecutive blocks without gap or overlap, per-cell table = per-entity table gathered through "
+    "t/t2e/t2f, two cells share a number iff same local dof of the same entity, interior numbers in one cell only, "
+    "boundedness and gap-freeness (every number below the total occurs when every entity occurs in a cell). The "
+    "model is compared exactly with Dofs(mesh, element) (four tables, element_dofs, N) for random meshes x every "
+    "exported element and Vector/DG/Composite wrappers; the iff-statement, layout, sparsity pattern and DOF "
+    "location table are evaluated on the implementation as failing-input search.",
+    "DOF-location single-valuedness is search only, and only for elements with at most one DOF per edge/facet; "
+    "sparsity of assembled matrices is proved in C01_sparsity.")
+CHECKS["C16"] = (
+    "Lean 4 proof over all interleavings (inductive Interleaving) + observed worker sequences",
+    "Theorems for all local sizes, all thread counts n > 0 (also n > Nu*Nv) and ALL interleavings of the workers' "
+    "kernel invocations: array_split is a partition into n chunks, every pair is computed exactly once, the final "
+    "output equals the serial output slot by slot, the flat slot map is injective (disjoint writes). The model's "
+    "chunks are compared with the per-thread invocation sequences logged inside the integrand of the real "
+    "BilinearForm(nthreads=n); schedules admissible for the model are imposed on the real threads at kernel "
+    "granularity and the result compared bitwise with serial assembly; shared inputs are checksummed.",
+    "Purity of the user kernel and atomicity of disjoint NumPy slice writes are hypotheses (runtime); races inside "
+    "a single kernel invocation are not modelled (partial).")
+
 NOT_YET = {}
 
 
